@@ -191,7 +191,15 @@ func c14cache(r *core.Recorder, c c14cfg, seedRng func(string) interface{ IntN(i
 					switch op {
 					case -1:
 					case 0, 1, 2, 3:
-						if e, err := vc.Cache(k, strings.NewReader(string(rig.Body(1, i, 64+rng.IntN(400)))), time.Now().Add(time.Duration(rng.IntN(3)-1)*time.Hour), rig.Obj{}); err == nil && e.Data != nil {
+						body := string(rig.Body(1, i, 64+rng.IntN(400)))
+						var src io.Reader = strings.NewReader(body)
+						switch rng.IntN(12) {
+						case 0:
+							src = strings.NewReader("") // an empty body: the file backend refuses it, the memory backend stores it
+						case 1:
+							src = &failingReader{data: []byte(body), fail: rng.IntN(len(body))} // the source breaks off part-way
+						}
+						if e, err := vc.Cache(k, src, time.Now().Add(time.Duration(rng.IntN(3)-1)*time.Hour), rig.Obj{}); err == nil && e != nil && e.Data != nil {
 							e.Data.Close()
 						}
 					case 4, 5, 6:
@@ -496,7 +504,7 @@ func init() {
 	core.Register(&core.Monitor{
 		ID:    "C14",
 		Level: "exploration",
-		Rule: "stress configurations = backend x shard count {1,2,3,1024} x key placement {all keys on one shard, spread} x shutdown {Destroy after / during traffic / twice} x config churn on/off, 16 workers x <ops> random store/get/delete/update/get-metadata on 12 keys, limit 1500 B (so stores keep evicting from inside the store), janitor at 1 ms; the same through the real proxy (12 clients, plain and tunnel, Range requests, policy/limit/interval/budget churn); race and plain builds (thorough: also GOMAXPROCS 1/2/4); stops with 2-6 interval changes the janitor has not consumed (context cancelled first / janitor loop parked inside a cycle by a hook / changes right before Destroy). " +
+		Rule: "stress configurations = backend x shard count {1,2,3,1024} x key placement {all keys on one shard, spread} x shutdown {Destroy after / during traffic / twice} x config churn on/off, 16 workers x <ops> random store (also of an empty body and from a source that breaks off part-way)/get/delete/update/get-metadata on 12 keys, limit 1500 B (so stores keep evicting from inside the store), janitor at 1 ms; the same through the real proxy (12 clients, plain and tunnel, Range requests, policy/limit/interval/budget churn); race and plain builds (thorough: also GOMAXPROCS 1/2/4); stops with 2-6 interval changes the janitor has not consumed (context cancelled first / janitor loop parked inside a cycle by a hook / changes right before Destroy). " +
 			"A watchdog dumps all goroutines when no operation completes for 15-20 s while work is pending; blocked reservoir frames = violation, none = inconclusive. Non-trivial = distinct configuration that ran to completion.",
 		Assumptions: []string{"bounded progress under the listed workloads, not deadlock freedom", "a stall without any goroutine blocked inside reservoir is reported as inconclusive, never as a violation"},
 		Plan:        c14Plan,
